@@ -4,6 +4,8 @@
   Statements and non-vacuity examples only.
 -/
 import YashModel.Errexit.NestedLemmas
+import YashModel.Errexit.NestedBalance
+import YashModel.Errexit.NestedHole
 import YashModel.Errexit.ScTheorems
 namespace YashModel.Errexit
 open YashModel.Exec
@@ -36,6 +38,59 @@ theorem shell_error_stops_at_any_depth (p : List Layer) (hp : ∀ l ∈ p, l.ok)
     rw [← hm.2]
     exact applyResult_status_congr _ _ _ rfl
   · rw [hout]; rfl
+
+/-! ### ★ every construct pops exactly the frames it pushed, on every path -/
+
+/-- `SimpleCommand::execute` leaves the frame stack it found — for EVERY command and state, whatever fails
+    (no hypothesis; `simple_command_meets_termination_doc` had this only for commands with a classified error) -/
+theorem simple_command_restores_the_stack (fuel : Nat) (s : St) (c : Simple) :
+    (execSimple fuel s c).1.stack = s.stack :=
+  execSimple_stack fuel c s
+
+/-- …and so does every construct of the nested model (groups, subshells, `if`, loops, negations, and-or lists,
+    function calls) on every path — normal completion, `break`/`continue`/`return`, shell errors, errexit, fuel
+    exhaustion: a `Condition` or `Loop` frame can never leak out of the construct that pushed it (a leaked
+    `Condition` frame would switch errexit off for the rest of the script). -/
+theorem frames_are_balanced (fuel : Nat) (s : St) (c : NCmd) : (execN fuel s c).1.stack = s.stack :=
+  (balN fuel).n s c
+
+/-- Any command at all (not only a simple command) that ends in `Interrupt`/`Exit` as the first command of any
+    nesting of non-subshell constructs: the whole nest does what the command did and nothing more. -/
+theorem stop_passes_through_any_context (p : List Layer) (hp : ∀ l ∈ p, l.ok) (fuel : Nat) (s : St) (n : NCmd)
+    (hstop : stopsShell (execN fuel (withStack s (framesAll p ++ s.stack)) n).2 = true) :
+    execN (fuel + costAll p) s (plugAll p n) =
+      (withStack (execN fuel (withStack s (framesAll p ++ s.stack)) n).1 s.stack,
+       (execN fuel (withStack s (framesAll p ++ s.stack)) n).2) :=
+  stops_through_context p hp fuel s n hstop (frames_are_balanced fuel _ n)
+
+/-- A function call is a simple command: when its body completes (or `return`s) with a non-zero status where
+    errexit applies the shell exits; `break`/`continue` (a call pushes no frame), `exit` and shell errors pass
+    through it unchanged. -/
+theorem function_call_errexit (fuel : Nat) (s : St) (body : List NCmd) :
+    let y := execSeq (execN fuel) s body
+    (y.2 = .continue_ → execN (fuel + 1) s (.call body) = (y.1, y.1.applyErrexit)) ∧
+    (∀ e, y.2 = .break_ (.return_ (some e)) →
+      execN (fuel + 1) s (.call body) = ({ y.1 with status := e }, ({ y.1 with status := e } : St).applyErrexit)) ∧
+    (y.2 = .break_ (.return_ none) → execN (fuel + 1) s (.call body) = (y.1, y.1.applyErrexit)) ∧
+    (∀ d, y.2 = .break_ d → (∀ e, d ≠ .return_ e) → execN (fuel + 1) s (.call body) = (y.1, .break_ d)) := by
+  intro y
+  refine ⟨fun h => ?_, fun e h => ?_, fun h => ?_, fun d h hd => ?_⟩
+  · show execN (fuel + 1) s (.call body) = _
+    simp only [execN]
+    have : (execSeq (execN fuel) s body).2 = .continue_ := h
+    rw [this]
+  · simp only [execN]
+    have : (execSeq (execN fuel) s body).2 = .break_ (.return_ (some e)) := h
+    rw [this]
+  · simp only [execN]
+    have : (execSeq (execN fuel) s body).2 = .break_ (.return_ none) := h
+    rw [this]
+  · simp only [execN]
+    have : (execSeq (execN fuel) s body).2 = .break_ d := h
+    rw [this]
+    cases d with
+    | return_ e => exact absurd rfl (hd e)
+    | _ => rfl
 
 /-! ### ★ whether errexit applies is decided by the whole chain of enclosing constructs -/
 
@@ -197,6 +252,164 @@ theorem construct_frames_are_the_codes :
   refine ⟨fun _ _ => h1.symm, h2.symm, fun _ _ _ => h3.symm, fun _ _ _ => h4.symm, fun _ => h5.symm,
     fun _ _ => h6.symm, by decide, by decide, by decide, by decide⟩
 
+/-! ### ★ a hole at any position -/
+
+/-- The hole at ANY position (`HoleRun`: after any commands that completed normally — in a list, in a condition,
+    in the branch or body the condition selected, in the first iteration of a loop, in the first matching `case`
+    item): any command that ends in `Interrupt`/`Exit` there ends the whole construct, frames popped, nothing
+    else run. -/
+theorem stop_at_any_position {fw g : Nat} {s s' : St} {whole n : NCmd} (h : HoleRun fw s whole g s' n)
+    (hstop : stopsShell (execN g s' n).2 = true) :
+    execN fw s whole = (withStack (execN g s' n).1 s.stack, (execN g s' n).2) :=
+  stop_at_hole h hstop
+
+/-- …so a shell error of a simple command (syntax / special built-in / assignment-or-expansion) at any position ends
+    the shell with the error's status, and the trace is what had run before it -/
+theorem shell_error_stops_at_any_position {fw g : Nat} {s s' : St} {whole : NCmd} {c : Simple}
+    (h : HoleRun fw s whole (g + 1) s' (.simple c)) (e : ShellError) (st : Nat)
+    (hc : c.shellError = some (e, st)) (he : e ≠ .redirection) :
+    let leaf := execSimple g s' c
+    let out := execN fw s whole
+    out = (withStack leaf.1 s.stack, leaf.2) ∧ stopsShell out.2 = true ∧
+    (out.1.applyResult out.2).status = st ∧ out.1.stack = s.stack ∧ out.1.trace = leaf.1.trace := by
+  intro leaf out
+  have hm := shell_error_stops_the_shell g s' c e st hc he
+  have hx : execN (g + 1) s' (.simple c) = leaf := rfl
+  have := stop_at_hole h (by rw [hx]; exact hm.1)
+  rw [hx] at this
+  have hout : out = (withStack leaf.1 s.stack, leaf.2) := this
+  refine ⟨hout, ?_, ?_, ?_, ?_⟩
+  · rw [hout]; exact hm.1
+  · rw [hout, ← hm.2]; exact applyResult_status_congr _ _ _ rfl
+  · rw [hout]; rfl
+  · rw [hout]; rfl
+
+/-! ### ★ pipelines, `for`, `case`, asynchronous lists -/
+
+/-- A two-command pipeline `a | b`: each command runs in its own subshell, whatever it ends with (a shell error,
+    `exit`, `break`, …) ends only that stage — its exit status is what counts; the pipeline's status is the last
+    command's, or under `pipefail` the last non-zero one; and only then the parent's errexit check is applied. -/
+theorem pipeline_two_stages (fuel : Nat) (s : St) (a b : NCmd)
+    (ha : (execN (fuel + 2) (s.enterJc.push .subshell) a).2 ≠ .outOfFuel) :
+    let xa := execN (fuel + 2) (s.enterJc.push .subshell) a
+    let ca := xa.1.applyResult xa.2
+    let sa : St := { s.enterJc with trace := ca.trace }
+    let xb := execN (fuel + 1) (sa.push .subshell) b
+    let cb := xb.1.applyResult xb.2
+    xb.2 ≠ .outOfFuel →
+    let st := if cb.status ≠ 0 ∨ !s.enterJc.pipefail then cb.status
+              else if ca.status ≠ 0 ∨ !s.enterJc.pipefail then ca.status else 0
+    let out : St := s.leaveJc { s.enterJc with trace := cb.trace, status := st }
+    execN (fuel + 4) s (.pipe [a, b]) = (out, out.applyErrexit) := by
+  intro xa ca sa xb cb hb st out
+  have h0 : execN (fuel + 4) s (.pipe [a, b]) =
+      (match (execPipeN (fuel + 3) s.enterJc [a, b] 0).2 with
+       | .continue_ => (s.leaveJc (execPipeN (fuel + 3) s.enterJc [a, b] 0).1,
+                        (s.leaveJc (execPipeN (fuel + 3) s.enterJc [a, b] 0).1).applyErrexit)
+       | r => (s.leaveJc (execPipeN (fuel + 3) s.enterJc [a, b] 0).1, r)) := rfl
+  rw [h0, execPipeN_cons (fuel + 2) s.enterJc a [b] 0 ha]
+  rw [execPipeN_cons (fuel + 1) _ b [] _ hb]
+  rfl
+
+/-- Expansion errors of `for` and `case` are shell errors: a word list that does not expand, a read-only loop
+    variable (with at least one value), a `case` subject that does not expand and a pattern that does not expand
+    (in an item reached without falling through) end in `Handle for expansion::Error` — Interrupt/Exit with status
+    2 — before any body runs; an item entered by `;&` does not even evaluate its patterns. -/
+theorem for_case_expansion_errors (fuel : Nat) (s : St) (ro : Bool) (n : Nat) (body : List NCmd)
+    (items : List (Bool × Bool × List NCmd × CaseCont)) (m : Bool) (k : CaseCont) (u : Bool) :
+    execN (fuel + 1) s (.forLoop true ro n body) = (s, handleExpansionError s) ∧
+    execN (fuel + 1) s (.forLoop false true (n + 1) body) = (s, handleExpansionError s) ∧
+    execN (fuel + 1) s (.caseC true items) = (s, handleExpansionError s) ∧
+    execN (fuel + 2) s (.caseC false ((m, true, body, k) :: items)) = (s, handleExpansionError s) ∧
+    execCaseN (fuel + 1) s ((m, true, body, k) :: items) true u =
+      execCaseN (fuel + 1) s ((true, false, body, k) :: items) true u ∧
+    stopsShell (handleExpansionError s) = true ∧ (s.applyResult (handleExpansionError s)).status = ERROR := by
+  refine ⟨by simp [execN], by simp [execN], by simp [execN], ?_, by simp [execCaseN], handleExpansionError_stops s⟩
+  simp only [execN, execCaseN]
+  rcases handleExpansionError_cases s with h | h <;> simp [h]
+
+/-- An asynchronous list cannot end the shell: whatever its body does (shell errors, `exit`, errexit) stays in
+    its subshell; the parent goes on with `$? = 0` and its own stack and options. -/
+theorem async_list_cannot_end_the_shell (fuel : Nat) (s : St) (body : List NCmd)
+    (h : (execSeq (execN fuel) (s.push .subshell) body).2 ≠ .outOfFuel) :
+    (execN (fuel + 1) s (.async body)).2 = .continue_ ∧
+    (execN (fuel + 1) s (.async body)).1 =
+      { s with status := 0, trace := ((execSeq (execN fuel) (s.push .subshell) body).1.applyResult
+                                        (execSeq (execN fuel) (s.push .subshell) body).2).trace } := by
+  simp only [execN]
+  cases hr : (execSeq (execN fuel) (s.push .subshell) body).2 with
+  | outOfFuel => exact absurd hr h
+  | _ => simp [St.applyErrexit, SUCCESS]
+
+/-! ### ★ the EXIT action: once, with the right `$?`; an error inside it (F23) -/
+
+/-- Whatever the script ends with except `Abort` — normal end, errexit, a shell error at any depth, `exit` — the
+    final state is that of exactly ONE run of the EXIT action, started with `$?` = the status `apply_result` left
+    (the failing command's / the error's); after `Abort` the action does not run. -/
+theorem exit_action_runs_once_with_the_abort_status (fuel : Nat) (s : St) (action : Option (List NLine))
+    (script : List NLine) :
+    let x := readEvalLoopN fuel s true script
+    let s1 := x.1.applyResult x.2
+    (runShellN fuel s action script).pre = s1.status ∧
+    ((∀ e, x.2 ≠ .break_ (.abort e)) → x.2 ≠ .outOfFuel →
+      (runShellN fuel s action script).final = (runExitTrapN fuel s1 action).1) ∧
+    (∀ e, x.2 = .break_ (.abort e) → (runShellN fuel s action script).final = s1) := by
+  intro x s1
+  refine ⟨rfl, fun ha hf => ?_, fun e he => ?_⟩
+  · have : runsExitTrap x.2 = true := by
+      cases hb : runsExitTrap x.2 with
+      | true => rfl
+      | false =>
+        obtain ⟨e, he⟩ := (exit_trap_skipped_only_after_abort x.2 hf).1 hb
+        exact absurd he (ha e)
+    simp only [runShellN]
+    have hx : readEvalLoopN fuel s true script = x := rfl
+    rw [hx, this]
+    rfl
+  · have hx : readEvalLoopN fuel s true script = x := rfl
+    have hb : runsExitTrap (.break_ (.abort e)) = false :=
+      (exit_trap_skipped_only_after_abort _ (by simp)).2 ⟨e, rfl⟩
+    simp only [runShellN, hx, he, hb]
+    simp only [s1, he]
+    rfl
+
+/-- F23's statement: the exit status after the EXIT action.  If the action is interrupted by an error with a
+    status of its own (a line that does not parse, an expansion error: `Interrupt(Some e)`) that status is the
+    shell's; if it is interrupted by a special built-in's error (`Interrupt(None)`) the status that error set
+    stays; in every other case the `$?` from before the action is restored and then `exit n` / `return n` inside
+    the action may replace it. -/
+theorem error_inside_exit_action (fuel : Nat) (s : St) (lines : List NLine) :
+    let x := readEvalLoopN fuel (s.push .trap) false lines
+    (∀ e, x.2 = .break_ (.interrupt (some e)) → (runExitTrapN fuel s (some lines)).1.status = e) ∧
+    (x.2 = .break_ (.interrupt none) → (runExitTrapN fuel s (some lines)).1.status = x.1.status) ∧
+    (x.2 = .continue_ → (runExitTrapN fuel s (some lines)).1.status = s.status) ∧
+    (∀ d, x.2 = .break_ d → (∀ e, d ≠ .interrupt e) →
+      (runExitTrapN fuel s (some lines)).1.status = d.exitStatus.getD s.status) ∧
+    (runExitTrapN fuel s (some lines)).1.stack = x.1.stack.tail := by
+  intro x
+  have hx : readEvalLoopN fuel (s.push .trap) false lines = x := rfl
+  refine ⟨fun e h => ?_, fun h => ?_, fun h => ?_, fun d h hd => ?_, ?_⟩
+  · simp [runExitTrapN, hx, h, St.applyResult, Divert.exitStatus]
+  · simp [runExitTrapN, hx, h, St.applyResult, Divert.exitStatus, St.pop]
+  · simp [runExitTrapN, hx, h, St.applyResult]
+  · simp only [runExitTrapN, hx, h]
+    cases d with
+    | interrupt e => exact absurd rfl (hd e)
+    | _ => simp only [St.applyResult, Divert.exitStatus] <;> (try cases ‹Option Nat›) <;> rfl
+  · simp only [runExitTrapN, hx]
+    cases hr : x.2 with
+    | break_ d => cases d <;> simp [St.applyResult, Divert.exitStatus, St.pop] <;> (try split) <;> simp
+    | _ => simp [St.applyResult]
+
+/-- …in particular a line of the action that does not parse, after lines that completed: exit status 2 -/
+theorem syntax_error_inside_exit_action (fuel : Nat) (s : St) (pre : List NCmd) (rest : List NLine)
+    (hpre : (execSeq (execN fuel) (s.push .trap) pre).2 = .continue_) :
+    (runExitTrapN fuel s (some (.cmds pre :: .syntaxError :: rest))).1.status = ERROR := by
+  have h := (error_inside_exit_action fuel s (.cmds pre :: .syntaxError :: rest)).1 ERROR
+  apply h
+  simp only [readEvalLoopN, hpre]
+  rfl
+
 /-! ### non-vacuity -/
 
 /-- `if { f; probe 5; }; then probe 6; fi; probe 7` with `f() { ! shift 99; }` — a special built-in's error under a
@@ -247,6 +460,63 @@ example :
     (execN 30 {} (loop (.simple (.mk (.ok none) (.builtin .special (.report 1)) .none (.ok none))))).2
       = .break_ (.interrupt none) ∧
     (execN 30 {} (loop (.simple (.mk (.ok none) (.builtin .special (.report 1)) .none (.ok none))))).1.trace = [(1, 0)] := by
+  decide
+
+/-- `{ f; probe 5; }` with `f() { ! exit 3; }`: the hypothesis of `stop_passes_through_any_context` for a leaf that
+    is not a structured simple command, and `set -e; f; probe 1` with `f() { probe 4; return 3; }`: the second
+    clause of `function_call_errexit` fires (`Exit`, `$? = 3`, `probe 1` does not run) -/
+example :
+    let p : List Layer := [.group [.simple (probeSimple 5)] .none, .call [], .neg]
+    stopsShell (execN 5 (withStack {} (framesAll p ++ [])) (.ctl (.exit (some 3)))).2 = true ∧
+    (execN 20 {} (plugAll p (.ctl (.exit (some 3))))).2 = .break_ (.exit (some 3)) ∧
+    (execN 20 {} (plugAll p (.ctl (.exit (some 3))))).1.trace = [] ∧
+    (execSeq (execN 20) { errexit := true }
+      [.call [.simple (probeSimple 4), .ctl (.ret (some 3))], .simple (probeSimple 1)]).2 = .break_ (.exit none) ∧
+    (execSeq (execN 20) { errexit := true }
+      [.call [.simple (probeSimple 4), .ctl (.ret (some 3))], .simple (probeSimple 1)]).1.trace = [(4, 0)] ∧
+    (execSeq (execN 20) { errexit := true }
+      [.call [.simple (probeSimple 4), .ctl (.ret (some 3))], .simple (probeSimple 1)]).1.status = 3 := by
+  decide
+
+/-- `{ probe 1; if probe 2; then probe 3; shift 99; probe 4; fi; probe 5; }`: a `HoleRun` to the `shift 99` in the
+    then-branch after three probes have run; the whole group ends in `Interrupt`, trace 1 2 3 -/
+example :
+    let bad : Simple := .mk (.ok none) (.builtin .special (.report 1)) .none (.ok none)
+    let p (m : Nat) : NCmd := .simple (probeSimple m)
+    let whole : NCmd := .group ([p 1] ++ .ifc [p 2] ([p 3] ++ .simple bad :: [p 4]) none :: [p 5]) .none
+    (∃ s', HoleRun 8 {} whole 6 s' (.simple bad)) ∧
+    (execN 8 {} whole).2 = .break_ (.interrupt none) ∧ (execN 8 {} whole).1.trace = [(3, 0), (2, 0), (1, 0)] := by
+  intro bad p whole
+  refine ⟨?_, by decide, by decide⟩
+  refine Exists.intro ?w ?h
+  case h =>
+    refine HoleRun.group (by intro e; exact Redirs.noConfusion) (completes_of (by decide)) ?_
+    refine HoleRun.ifThen (completes_of (by decide)) (by decide) (completes_of (by decide)) ?_
+    exact HoleRun.here _ _ _
+
+/-- `set -e; ${u?} | st 0; probe 1` goes on (the error ends only its stage, the pipeline's status is 0) while with
+    `set -o pipefail` the shell exits with 2; `! ${u?} | st 3` never exits; the hypotheses of `pipeline_two_stages` -/
+example :
+    let bad : NCmd := .simple (.mk .error .absent .none (.ok none))
+    let ok : NCmd := .ctl (.st 0)
+    (execN 5 (({ errexit := true } : St).enterJc.push .subshell) bad).2 ≠ .outOfFuel ∧
+    (execN 9 { errexit := true } (.pipe [bad, ok])).2 = .continue_ ∧
+    (execN 9 { errexit := true, pipefail := true } (.pipe [bad, ok])).2 = .break_ (.exit none) ∧
+    (execN 9 { errexit := true, pipefail := true } (.pipe [bad, ok])).1.status = 2 ∧
+    (execN 9 { errexit := true } (.neg (.pipe [bad, .ctl (.st 3)]))).2 = .continue_ := by
+  decide
+
+/-- `trap 'probe 99' EXIT; set -e; f` with `f() { no_such_command; }`: the action runs once with `$? = 127`;
+    `trap 'probe 99 <newline> fi <newline> probe 98' EXIT; st 0`: the action stops at the line that does not parse
+    and the exit status is 2 (hypothesis of `syntax_error_inside_exit_action`) -/
+example :
+    let bad : NCmd := .call [.simple (.mk (.ok none) (.external 127) .none (.ok none))]
+    let p (m : Nat) : NCmd := .simple (probeSimple m)
+    (runShellN 20 { errexit := true } (some [.cmds [p 99]]) [.cmds [bad, p 1]]).final.trace = [(99, 127)] ∧
+    (runShellN 20 { errexit := true } (some [.cmds [p 99]]) [.cmds [bad, p 1]]).final.status = 127 ∧
+    (execSeq (execN 20) (({} : St).push .trap) [p 99]).2 = .continue_ ∧
+    (runShellN 20 {} (some [.cmds [p 99], .syntaxError, .cmds [p 98]]) [.cmds [.ctl (.st 0)]]).final.trace = [(99, 0)] ∧
+    (runShellN 20 {} (some [.cmds [p 99], .syntaxError, .cmds [p 98]]) [.cmds [.ctl (.st 0)]]).final.status = 2 := by
   decide
 
 end YashModel.Errexit
